@@ -3,6 +3,7 @@
   (`Generated/GrammarLadder.lean`, `Generated/ResolverTable.lean`).
 -/
 import Tranp.Lemmas.Ladder
+import Tranp.Lemmas.LadderT
 import Tranp.Model.Classify
 import Tranp.Generated.GrammarLadder
 import Tranp.Generated.ResolverTable
@@ -27,6 +28,31 @@ def supportedHeads : List Head := pySupported.heads
 
 /-- the reference parser's parameters: generated ladder + atom subtrees -/
 def infoOf (a : Nat → LarkTree) : Info := ⟨ladder, compOps, a⟩
+
+/-- parameters of the reference parser for `expression`: generated ladder + atom and lambda-parameter subtrees -/
+def infoTOf (a p : Nat → LarkTree) : InfoT := ⟨ladder, compOps, a, p⟩
+
+/-- a comparison chain `first o₁ e₁ o₂ e₂ …` as the (bare, left-nested) operator term -/
+def chainExpr (first : Expr) : List (Nat × Expr) → Expr
+  | [] => first
+  | (o, e) :: rest => chainExpr (.bin o first e) rest
+
+theorem chainExpr_snoc (first : Expr) (steps : List (Nat × Expr)) (o : Nat) (e : Expr) :
+    chainExpr first (steps ++ [(o, e)]) = .bin o (chainExpr first steps) e := by
+  induction steps generalizing first with
+  | nil => rfl
+  | cons s steps ih => simp [chainExpr, ih]
+
+theorem cmpParts_chainExpr (a : Nat → LarkTree) (steps : List (Nat × Expr)) (hops : ∀ s ∈ steps, pyKind s.1 = .compare) :
+    ∀ acc : Expr, cmpParts a (chainExpr acc steps) =
+      ((cmpParts a acc).1, (cmpParts a acc).2.1 ++ steps.map (·.1), (cmpParts a acc).2.2 ++ steps.map (fun s => astOf a s.2)) := by
+  induction steps with
+  | nil => intro acc; simp [chainExpr]
+  | cons s steps ih =>
+    intro acc
+    have hs : pyKind s.1 = .compare := hops s (by simp)
+    rw [chainExpr, ih (fun x hx => hops x (by simp [hx])), cmpParts_bin]
+    simp [hs, List.append_assoc]
 
 theorem known_of_heads (L : Ops) (e : Expr) (h : ∀ x ∈ heads e, knownHead L x = true) : known L e = true := by
   induction e with
